@@ -58,6 +58,7 @@ class BuildResult:
         self.frugal_log = ""
         self.gen_log = ""
         self.go_bins = {}
+        self.hooks_excluded = []
 
 
 def _lock():
@@ -103,6 +104,45 @@ def build_coq(br, jobs=16):
         br.coq_failed_files = sorted(set(re.findall(r'File "\./(theories/[^"]+\.v)"', out + err)))
 
 
+HOOK_FILE_RE = re.compile(r"(/[^\s:]*?/verif_\w+\.go):\d+")
+
+
+def go_build_hooks(args, cwd, timeout=1500):
+    """`go build -tags verif ...`; when it fails because a verif_*.go hook file of the tree under test no longer compiles
+    (the code it reaches into was edited), build again with that hook file overlaid by an empty one: binaries that
+    do not use the broken hook keep working (their checks can still look for a concrete failing input), binaries
+    that do use it fail to link and their property reports the broken correspondence.
+    Returns (rc, out, err, excluded hook files)."""
+    rc, out, err = sh(args, cwd=cwd, env=GOENV, timeout=timeout)
+    if rc == 0:
+        return rc, out, err, []
+    bad = sorted(set(HOOK_FILE_RE.findall(out + err)))
+    bad = [f for f in bad if os.path.exists(f)]
+    if not bad:
+        return rc, out, err, []
+    od = os.path.join(CACHE, "overlay")
+    os.makedirs(od, exist_ok=True)
+    repl = {}
+    for f in bad:
+        pkg = "main"
+        for line in open(f, errors="replace"):
+            m = re.match(r"package\s+(\w+)", line)
+            if m:
+                pkg = m.group(1)
+                break
+        stub = os.path.join(od, hashlib.sha256(f.encode()).hexdigest()[:16] + ".go")
+        open(stub, "w").write("//go:build verif\n\npackage %s\n" % pkg)
+        repl[f] = stub
+    ov = os.path.join(od, "overlay-%d.json" % os.getpid())
+    json.dump({"Replace": repl}, open(ov, "w"))
+    a2 = list(args)
+    a2[2:2] = ["-overlay", ov]
+    rc2, out2, err2 = sh(a2, cwd=cwd, env=GOENV, timeout=timeout)
+    if rc2 == 0:
+        return 0, out2, "hook files excluded (they no longer compile): %s\n%s" % (", ".join(bad), err), bad
+    return rc, out, err, []
+
+
 def build_go(br):
     os.makedirs(BIN, exist_ok=True)
     h = os.path.join(VERIF, "harness")
@@ -127,11 +167,14 @@ def build_go(br):
     # one binary per directory under harness/cmd, built separately so that one broken
     # harness does not take the others down
     br.go_bins = {}
+    br.hooks_excluded = []
     cmds = sorted(d for d in os.listdir(os.path.join(h, "cmd")) if os.path.isdir(os.path.join(h, "cmd", d)))
     for c in cmds:
-        rc, out, err = sh(["go", "build", "-tags", "verif", "-o", os.path.join(BIN, c), "./cmd/" + c],
-                          cwd=h, env=GOENV, timeout=1500)
+        rc, out, err, excl = go_build_hooks(["go", "build", "-tags", "verif", "-o", os.path.join(BIN, c), "./cmd/" + c], h)
         br.go_bins[c] = (rc == 0)
+        for f in excl:
+            if f not in br.hooks_excluded:
+                br.hooks_excluded.append(f)
         if rc != 0:
             br.go_log += "== cmd/%s ==\n%s%s\n" % (c, out, err)
             try:
